@@ -15,6 +15,7 @@ HARNESS = os.path.join(VERIF, 'harness-unmanaged')
 TARGET = os.path.join(VERIF, '.cache', 'target-unmanaged')
 BIN = os.path.join(TARGET, 'debug', 'h1_unmanaged')
 RULE_PREFIX = ('random thread-level label sequences on the real unmanaged pool (profiles core/full/close/mixed, '
+               'plus the merges of close() with one other operation: all 8415 in the thorough tier, a sample in quick; '
                'pools built by new / from_config / From<iterator>, SplitMix64 from VERIF_SEED) plus corpus, each '
                'ending in a drain phase and a probe through the public API; each replayed in the Coq model by '
                'vm_compute and compared on the projection of this property after every label; non-trivial = '
@@ -105,10 +106,15 @@ def pretty(path, out=sys.stdout):
 
 
 # ------------------------------------------------------------------ harness
+RACE_TOTAL = 17 * 495   # scenarios x merges of close()'s four labels with <= 8 labels of the other operation
+
+
 def batches(tier):
+    """(profile, number of traces, max random labels); 'race' = close() merged with one other operation in
+    every possible way: all merges in the thorough tier, a seeded sample in the quick tier"""
     if tier == 'thorough':
-        return [('core', 3000, 70), ('full', 2500, 70), ('close', 3000, 70), ('mixed', 2000, 90)]
-    return [('core', 130, 60), ('full', 100, 60), ('close', 130, 60), ('mixed', 80, 80)]
+        return [('core', 5000, 70), ('full', 4500, 70), ('close', 5000, 70), ('mixed', 3500, 90), ('race', RACE_TOTAL, 0)]
+    return [('core', 120, 60), ('full', 90, 60), ('close', 110, 60), ('mixed', 70, 80), ('race', 60, 0)]
 
 
 def cargo_build():
@@ -468,6 +474,14 @@ def run_engine(seed, tier):
     ncorpus = len(traces)
     for bi, (profile, n, ml) in enumerate(batches(tier)):
         traces += gen_traces(seed * 1000 + bi, profile, n, ml)
+    # identical label sequences (frequent among the race merges) are evaluated once
+    seen, uniq = set(), []
+    for t in traces:
+        h = corr.trace_hash(t)
+        if h not in seen:
+            seen.add(h)
+            uniq.append(t)
+    traces = uniq
     t1 = time.time()
     mo = model_obs(traces, tag='u%d' % os.getpid())
     t2 = time.time()
